@@ -756,6 +756,10 @@ pub fn after_client_frame(sim: &mut Sim, c: usize) {
                     if sim.snaps.get(&u).map(|s| s.ents.contains_key(se)).unwrap_or(false) {
                         v.push(("C08", "hidden_entity_kept", format!("client {c} still holds entity {se:#x} at update tick {u} although it was hidden from it at that tick")));
                     }
+                    // Hidden from this client and despawned before the next tick: either way it has to go.
+                    if sess.hidden_at_despawn.contains(se) {
+                        v.push(("C08", "hidden_entity_kept", format!("client {c} still holds entity {se:#x} at update tick {u} although it was hidden from it (and despawned while hidden)")));
+                    }
                 }
                 Some(sc) => {
                     if !*marker {
